@@ -1,0 +1,123 @@
+// Copyright 2020-2025 Buf Technologies, Inc.
+//
+// Licensed under the Apache License, Version 2.0 (the "License");
+// you may not use this file except in compliance with the License.
+// You may obtain a copy of the License at
+//
+//      http://www.apache.org/licenses/LICENSE-2.0
+//
+// Unless required by applicable law or agreed to in writing, software
+// distributed under the License is distributed on an "AS IS" BASIS,
+// WITHOUT WARRANTIES OR CONDITIONS OF ANY KIND, either express or implied.
+// See the License for the specific language governing permissions and
+// limitations under the License.
+
+
+//go:build verif
+
+package netrc
+
+// Contracts for the gocv verifier (see /verif/DESIGN.md), author ca-r4g. Comment-only.
+// Trusted model of the go-netrc library (edit log rg_nr...), of os.WriteFile (rg_wf...): /verif/specs/R4g.spec.
+// Lookup (GetMachineForName...), GetFilePath, newMachine and the accessors of *machine: zz_verif_contracts_w.go.
+//
+// C19 "a token configured for one host is never sent to another host": a credential is only ever STORED under the machine
+// name it was given for, so that the (verified) per-host lookup finds it for that host only.
+//
+//@ func NewMachine(name, login, password) (r)
+//@   property C19
+//@   ensures keeps-name-and-credentials: r != nil && typeOf(r) == typeId(*machine) && cast(*machine, r).name == name && cast(*machine, r).login == login && cast(*machine, r).password == password
+// (through the interface: axiom rg_machine-dispatch, R4g.spec, connects Machine.Name() on a *machine to (*machine).Name())
+//@   use rg_machine-dispatch
+//@   ensures accessors-return-them: cast(*machine, r).Name() == name && cast(*machine, r).Login() == login && cast(*machine, r).Password() == password && r.Name() == name && r.Login() == login && r.Password() == password
+//
+// "PutMachines adds the given Machines to the configured netrc file": every given machine is added exactly once, in order,
+// under ITS OWN name with ITS OWN login and password; the only entries removed are entries of the given names (entries of
+// other hosts are untouched); an entry that the file already has for a given name is removed first (replaced, not
+// duplicated); the struct that is edited and rendered is the one parsed from that file (a new one if there is no file), it is
+// rendered after all edits and written once, to that file. Errors of stat / parse are returned and nothing is written.
+//@ func putMachinesForFilePath(machines, filePath) (retErr)
+//@   property C19
+//@   modifies heap, ghost.j_osStat, ghost.j_osWrite, ghost.fail, ghost.wfail, ghost.w_statFails, ghost.w_statErr, ghost.rg_nrRemoved, ghost.rg_nrAddN, ghost.rg_nrAddName, ghost.rg_nrAddLogin, ghost.rg_nrAddPass, ghost.rg_nrEdited, ghost.rg_nrRendered, ghost.rg_nrRenderAdds, ghost.rg_nrRenderRemoved, ghost.rg_nrText, ghost.rg_wfN, ghost.rg_wfPath, ghost.rg_wfData, ghost.rg_wfErr
+//@   ghost before "if os.IsNotExist(err)" w_statFails := ghost.w_statFails + 1
+//@   ghost before "if os.IsNotExist(err)" w_statErr := err
+//@   ensures stat-error-returned-nothing-written: ghost.w_statFails != old(ghost.w_statFails) && !os.IsNotExist(ghost.w_statErr) ==> retErr == ghost.w_statErr && retErr != nil && ghost.rg_wfN == old(ghost.rg_wfN) && ghost.rg_nrAddN == old(ghost.rg_nrAddN)
+//@   ensures parse-error-returned-nothing-written: ghost.w_statFails == old(ghost.w_statFails) && w_netrcErr(filePath) != nil ==> retErr == w_netrcErr(filePath) && ghost.rg_wfN == old(ghost.rg_wfN) && ghost.rg_nrAddN == old(ghost.rg_nrAddN)
+//@   ensures each-machine-added-once-in-order: rg_putRuns(ghost.w_statFails != old(ghost.w_statFails), ghost.w_statErr, filePath) ==> ghost.rg_nrAddN == old(ghost.rg_nrAddN) + len(machines)
+//@   ensures stored-under-its-own-name: rg_putRuns(ghost.w_statFails != old(ghost.w_statFails), ghost.w_statErr, filePath) ==> (forall j int :: 0 <= j && j < len(machines) ==> ghost.rg_nrAddName[old(ghost.rg_nrAddN) + j] == machines[j].Name())
+//@   ensures stored-with-its-own-credentials: rg_putRuns(ghost.w_statFails != old(ghost.w_statFails), ghost.w_statErr, filePath) ==> (forall j int :: 0 <= j && j < len(machines) ==> ghost.rg_nrAddLogin[old(ghost.rg_nrAddN) + j] == machines[j].Login() && ghost.rg_nrAddPass[old(ghost.rg_nrAddN) + j] == machines[j].Password())
+//@   ensures other-hosts-entries-untouched: forall s string :: s in ghost.rg_nrRemoved && !(s in old(ghost.rg_nrRemoved)) ==> (exists j int :: 0 <= j && j < len(machines) && machines[j].Name() == s)
+// the same for the first machine, without quantifier (ground form for callers that store one machine)
+//@   ensures first-machine-stored-under-its-own-name-with-its-own-credentials: ghost.rg_nrAddN != old(ghost.rg_nrAddN) && len(machines) > 0 ==> ghost.rg_nrAddName[old(ghost.rg_nrAddN)] == machines[0].Name() && ghost.rg_nrAddLogin[old(ghost.rg_nrAddN)] == machines[0].Login() && ghost.rg_nrAddPass[old(ghost.rg_nrAddN)] == machines[0].Password()
+//@   ensures single-machine-removes-only-its-name: len(machines) == 1 ==> (forall s string :: s in ghost.rg_nrRemoved && !(s in old(ghost.rg_nrRemoved)) ==> s == machines[0].Name())
+//@   ensures existing-entry-replaced-not-duplicated: ghost.w_statFails == old(ghost.w_statFails) && w_netrcErr(filePath) == nil ==> (forall j int :: 0 <= j && j < len(machines) && w_netrcOf(filePath).Machine(machines[j].Name()) != nil ==> machines[j].Name() in ghost.rg_nrRemoved)
+//@   ensures edits-the-struct-parsed-from-that-file: ghost.w_statFails == old(ghost.w_statFails) && w_netrcErr(filePath) == nil ==> ghost.rg_nrRendered == w_netrcOf(filePath) && (len(machines) > 0 ==> ghost.rg_nrEdited == w_netrcOf(filePath))
+//@   ensures rendered-after-all-edits-and-written-once-to-that-file: rg_putRuns(ghost.w_statFails != old(ghost.w_statFails), ghost.w_statErr, filePath) ==> ghost.rg_nrRenderAdds == ghost.rg_nrAddN && ghost.rg_nrRenderRemoved == ghost.rg_nrRemoved && (len(machines) > 0 ==> ghost.rg_nrRendered == ghost.rg_nrEdited) && ghost.rg_wfN == old(ghost.rg_wfN) + 1 && ghost.rg_wfPath == filePath && ghost.rg_wfData == ghost.rg_nrText
+//@   ensures write-error-returned: rg_putRuns(ghost.w_statFails != old(ghost.w_statFails), ghost.w_statErr, filePath) ==> retErr == ghost.rg_wfErr
+//@   ensures failed-write-is-reported: ghost.wfail && !old(ghost.wfail) ==> retErr != nil
+//@   ensures no-write-leaves-the-record: ghost.rg_wfN == old(ghost.rg_wfN) ==> ghost.rg_wfPath == old(ghost.rg_wfPath) && ghost.rg_wfData == old(ghost.rg_wfData) && ghost.rg_wfErr == old(ghost.rg_wfErr) && ghost.wfail == old(ghost.wfail)
+//@   loop 0 invariant added-so-far: ghost.rg_nrAddN == old(ghost.rg_nrAddN) + $i
+//@   loop 0 invariant names-so-far: forall j int :: 0 <= j && j < $i ==> ghost.rg_nrAddName[old(ghost.rg_nrAddN) + j] == machines[j].Name()
+//@   loop 0 invariant credentials-so-far: forall j int :: 0 <= j && j < $i ==> ghost.rg_nrAddLogin[old(ghost.rg_nrAddN) + j] == machines[j].Login() && ghost.rg_nrAddPass[old(ghost.rg_nrAddN) + j] == machines[j].Password()
+//@   loop 0 invariant removed-only-given-names: forall s string :: s in ghost.rg_nrRemoved && !(s in old(ghost.rg_nrRemoved)) ==> (exists j int :: 0 <= j && j < $i && machines[j].Name() == s)
+//@   loop 0 invariant found-entries-removed: forall j int :: 0 <= j && j < $i && netrcStruct.Machine(machines[j].Name()) != nil ==> machines[j].Name() in ghost.rg_nrRemoved
+//@   loop 0 invariant edited-struct: $i > 0 ==> ghost.rg_nrEdited == netrcStruct
+//@   canary ensures retErr != nil
+//@   canary ensures retErr == nil
+//
+// The exported form: the file is the one GetFilePath determines ($NETRC, else $HOME/.netrc); a failure to determine it is
+// returned and nothing is edited or written.
+//@ func PutMachines(envContainer, machines) (err)
+//@   property C19
+//@   modifies heap, ghost.j_osStat, ghost.j_osWrite, ghost.fail, ghost.wfail, ghost.w_statFails, ghost.w_statErr, ghost.rg_nrRemoved, ghost.rg_nrAddN, ghost.rg_nrAddName, ghost.rg_nrAddLogin, ghost.rg_nrAddPass, ghost.rg_nrEdited, ghost.rg_nrRendered, ghost.rg_nrRenderAdds, ghost.rg_nrRenderRemoved, ghost.rg_nrText, ghost.rg_wfN, ghost.rg_wfPath, ghost.rg_wfData, ghost.rg_wfErr
+//@   ensures path-error-returned-nothing-done: second(GetFilePath(envContainer)) != nil ==> err == second(GetFilePath(envContainer)) && ghost.rg_wfN == old(ghost.rg_wfN) && ghost.rg_nrAddN == old(ghost.rg_nrAddN) && ghost.rg_nrRemoved == old(ghost.rg_nrRemoved)
+//@   ensures never-adds-more-than-given: ghost.rg_nrAddN == old(ghost.rg_nrAddN) || ghost.rg_nrAddN == old(ghost.rg_nrAddN) + len(machines)
+//@   ensures stored-under-its-own-name-with-its-own-credentials: ghost.rg_nrAddN != old(ghost.rg_nrAddN) ==> (forall j int :: 0 <= j && j < len(machines) ==> ghost.rg_nrAddName[old(ghost.rg_nrAddN) + j] == machines[j].Name() && ghost.rg_nrAddLogin[old(ghost.rg_nrAddN) + j] == machines[j].Login() && ghost.rg_nrAddPass[old(ghost.rg_nrAddN) + j] == machines[j].Password())
+//@   ensures other-hosts-entries-untouched: forall s string :: s in ghost.rg_nrRemoved && !(s in old(ghost.rg_nrRemoved)) ==> (exists j int :: 0 <= j && j < len(machines) && machines[j].Name() == s)
+// the same for the first machine, without quantifier (ground form for callers that store one machine)
+//@   ensures first-machine-stored-under-its-own-name-with-its-own-credentials: ghost.rg_nrAddN != old(ghost.rg_nrAddN) && len(machines) > 0 ==> ghost.rg_nrAddName[old(ghost.rg_nrAddN)] == machines[0].Name() && ghost.rg_nrAddLogin[old(ghost.rg_nrAddN)] == machines[0].Login() && ghost.rg_nrAddPass[old(ghost.rg_nrAddN)] == machines[0].Password()
+//@   ensures single-machine-removes-only-its-name: len(machines) == 1 ==> (forall s string :: s in ghost.rg_nrRemoved && !(s in old(ghost.rg_nrRemoved)) ==> s == machines[0].Name())
+//@   ensures existing-entry-replaced-not-duplicated: second(GetFilePath(envContainer)) == nil && ghost.w_statFails == old(ghost.w_statFails) && w_netrcErr(first(GetFilePath(envContainer))) == nil ==> (forall j int :: 0 <= j && j < len(machines) && w_netrcOf(first(GetFilePath(envContainer))).Machine(machines[j].Name()) != nil ==> machines[j].Name() in ghost.rg_nrRemoved)
+//@   ensures written-only-to-the-users-netrc: ghost.rg_wfN == old(ghost.rg_wfN) || (ghost.rg_wfN == old(ghost.rg_wfN) + 1 && second(GetFilePath(envContainer)) == nil && ghost.rg_wfPath == first(GetFilePath(envContainer)) && ghost.rg_wfData == ghost.rg_nrText && ghost.rg_nrRenderAdds == ghost.rg_nrAddN && ghost.rg_nrRenderRemoved == ghost.rg_nrRemoved)
+//@   ensures success-means-stored: err == nil ==> ghost.rg_wfN == old(ghost.rg_wfN) + 1 && ghost.rg_wfErr == nil && ghost.rg_nrAddN == old(ghost.rg_nrAddN) + len(machines)
+//@   ensures failed-write-is-reported: ghost.wfail && !old(ghost.wfail) ==> err != nil
+//@   ensures no-write-leaves-the-record: ghost.rg_wfN == old(ghost.rg_wfN) ==> ghost.rg_wfPath == old(ghost.rg_wfPath) && ghost.rg_wfData == old(ghost.rg_wfData) && ghost.rg_wfErr == old(ghost.rg_wfErr) && ghost.wfail == old(ghost.wfail)
+//@   canary ensures err != nil
+//@   canary ensures err == nil
+//
+// "DeleteMachineForName deletes the Machine for the given name, if set. Returns false if there was no Machine for the given
+// name": exactly that name is removed (nothing is ever added), only when the file has an entry of that name; then the
+// struct parsed from that file is rendered after the removal and written once to that file; true is returned exactly when
+// this write succeeded. No file / no entry: false, nothing removed, nothing written.
+//@ func deleteMachineForFilePath(name, filePath) (r, retErr)
+//@   property C19
+//@   modifies heap, ghost.j_osStat, ghost.j_osWrite, ghost.fail, ghost.wfail, ghost.w_statFails, ghost.w_statErr, ghost.rg_nrRemoved, ghost.rg_nrEdited, ghost.rg_nrRendered, ghost.rg_nrRenderAdds, ghost.rg_nrRenderRemoved, ghost.rg_nrText, ghost.rg_wfN, ghost.rg_wfPath, ghost.rg_wfData, ghost.rg_wfErr
+//@   ghost before "if os.IsNotExist(err)" w_statFails := ghost.w_statFails + 1
+//@   ghost before "if os.IsNotExist(err)" w_statErr := err
+//@   ensures nothing-is-ever-added: ghost.rg_nrAddN == old(ghost.rg_nrAddN)
+//@   ensures no-file-nothing-to-do: ghost.w_statFails != old(ghost.w_statFails) && os.IsNotExist(ghost.w_statErr) ==> !r && retErr == nil && ghost.rg_nrRemoved == old(ghost.rg_nrRemoved) && ghost.rg_wfN == old(ghost.rg_wfN)
+//@   ensures stat-error-returned: ghost.w_statFails != old(ghost.w_statFails) && !os.IsNotExist(ghost.w_statErr) ==> !r && retErr == ghost.w_statErr && retErr != nil && ghost.rg_nrRemoved == old(ghost.rg_nrRemoved) && ghost.rg_wfN == old(ghost.rg_wfN)
+//@   ensures parse-error-returned: ghost.w_statFails == old(ghost.w_statFails) && w_netrcErr(filePath) != nil ==> !r && retErr == w_netrcErr(filePath) && ghost.rg_nrRemoved == old(ghost.rg_nrRemoved) && ghost.rg_wfN == old(ghost.rg_wfN)
+//@   ensures no-entry-nothing-to-do: ghost.w_statFails == old(ghost.w_statFails) && w_netrcErr(filePath) == nil && w_netrcOf(filePath).Machine(name) == nil ==> !r && retErr == nil && ghost.rg_nrRemoved == old(ghost.rg_nrRemoved) && ghost.rg_wfN == old(ghost.rg_wfN)
+//@   ensures removes-exactly-that-name: ghost.w_statFails == old(ghost.w_statFails) && w_netrcErr(filePath) == nil && w_netrcOf(filePath).Machine(name) != nil ==> ghost.rg_nrRemoved == add(old(ghost.rg_nrRemoved), name) && ghost.rg_nrEdited == w_netrcOf(filePath)
+//@   ensures rendered-after-the-removal-and-written-once-to-that-file: ghost.w_statFails == old(ghost.w_statFails) && w_netrcErr(filePath) == nil && w_netrcOf(filePath).Machine(name) != nil ==> ghost.rg_nrRendered == w_netrcOf(filePath) && ghost.rg_nrRenderRemoved == ghost.rg_nrRemoved && ghost.rg_wfN == old(ghost.rg_wfN) + 1 && ghost.rg_wfPath == filePath && ghost.rg_wfData == ghost.rg_nrText
+//@   ensures true-iff-removed-and-saved: ghost.w_statFails == old(ghost.w_statFails) && w_netrcErr(filePath) == nil && w_netrcOf(filePath).Machine(name) != nil ==> retErr == ghost.rg_wfErr && (r <==> ghost.rg_wfErr == nil)
+//@   ensures failed-write-is-reported: ghost.wfail && !old(ghost.wfail) ==> retErr != nil
+//@   ensures no-write-leaves-the-record: ghost.rg_wfN == old(ghost.rg_wfN) ==> ghost.rg_wfPath == old(ghost.rg_wfPath) && ghost.rg_wfData == old(ghost.rg_wfData) && ghost.rg_wfErr == old(ghost.rg_wfErr) && ghost.wfail == old(ghost.wfail)
+//@   canary ensures r
+//@   canary ensures !r
+//
+//@ func DeleteMachineForName(envContainer, name) (r, err)
+//@   property C19
+//@   modifies heap, ghost.j_osStat, ghost.j_osWrite, ghost.fail, ghost.wfail, ghost.w_statFails, ghost.w_statErr, ghost.rg_nrRemoved, ghost.rg_nrEdited, ghost.rg_nrRendered, ghost.rg_nrRenderAdds, ghost.rg_nrRenderRemoved, ghost.rg_nrText, ghost.rg_wfN, ghost.rg_wfPath, ghost.rg_wfData, ghost.rg_wfErr
+//@   ensures path-error-returned-nothing-done: second(GetFilePath(envContainer)) != nil ==> !r && err == second(GetFilePath(envContainer)) && ghost.rg_wfN == old(ghost.rg_wfN) && ghost.rg_nrRemoved == old(ghost.rg_nrRemoved)
+//@   ensures nothing-is-ever-added: ghost.rg_nrAddN == old(ghost.rg_nrAddN)
+//@   ensures removes-only-that-name: ghost.rg_nrRemoved == old(ghost.rg_nrRemoved) || ghost.rg_nrRemoved == add(old(ghost.rg_nrRemoved), name)
+//@   ensures removes-only-from-the-users-netrc-and-only-an-existing-entry: ghost.rg_nrRemoved != old(ghost.rg_nrRemoved) ==> second(GetFilePath(envContainer)) == nil && ghost.rg_nrEdited == w_netrcOf(first(GetFilePath(envContainer))) && w_netrcOf(first(GetFilePath(envContainer))).Machine(name) != nil
+//@   ensures written-only-to-the-users-netrc: ghost.rg_wfN == old(ghost.rg_wfN) || (ghost.rg_wfN == old(ghost.rg_wfN) + 1 && second(GetFilePath(envContainer)) == nil && ghost.rg_wfPath == first(GetFilePath(envContainer)) && ghost.rg_wfData == ghost.rg_nrText && ghost.rg_nrRenderRemoved == ghost.rg_nrRemoved)
+//@   ensures true-means-removed-and-saved: r ==> err == nil && name in ghost.rg_nrRemoved && ghost.rg_wfN == old(ghost.rg_wfN) + 1 && ghost.rg_wfErr == nil
+//@   ensures false-without-error-means-nothing-to-delete: !r && err == nil ==> ghost.rg_nrRemoved == old(ghost.rg_nrRemoved) && ghost.rg_wfN == old(ghost.rg_wfN)
+//@   ensures failed-write-is-reported: ghost.wfail && !old(ghost.wfail) ==> err != nil
+//@   ensures no-write-leaves-the-record: ghost.rg_wfN == old(ghost.rg_wfN) ==> ghost.rg_wfPath == old(ghost.rg_wfPath) && ghost.rg_wfData == old(ghost.rg_wfData) && ghost.rg_wfErr == old(ghost.rg_wfErr) && ghost.wfail == old(ghost.wfail)
+//@   canary ensures r
+//@   canary ensures !r
